@@ -3,3 +3,4 @@ pub mod rules;
 pub mod san;
 pub mod solver;
 pub mod tb;
+pub mod tb4;
